@@ -1,80 +1,10 @@
 package ergo
 
+import "strings"
+
 // Command-level harnesses (one process, no crash): the real RunX functions over the symbolic
 // store. Used by C10 (a failing command changes nothing), C16 (--json discipline and truth),
 // C06 (state machine through every entry point) and C17 (text data flow).
-
-func zzCmdStore() *Graph {
-	g := zzC14Store("2;Results=0;RDeps=0;Tombstones=1;constkeys=Tasks,Meta,Deps")
-	return g
-}
-
-func zzCmdOpts(root string) GlobalOptions {
-	var opts GlobalOptions
-	zzHavoc("opts", &opts, "0")
-	opts.StartDir = root
-	opts.Verbose = false
-	return opts
-}
-
-// input modes: 0 = JSON on stdin, 1 = flags only (stdin is a terminal), 2 = --body-stdin
-func zzCmdMode(opts *GlobalOptions, mode int) {
-	switch mode {
-	case 0:
-		opts.BodyStdin = false
-		zzStdinPiped(true)
-	case 1:
-		opts.BodyStdin = false
-		zzStdinPiped(false)
-	case 2:
-		opts.BodyStdin = true
-		zzStdinPiped(true)
-	}
-}
-
-func zzTaskInput() *TaskInput {
-	in := &TaskInput{}
-	zzHavoc("in", in, "0")
-	return in
-}
-
-// observations common to every command
-func zzAfter(name string, err error, jsonMode bool) {
-	zzNote(name + " returned: " + zzErrText(err))
-	nJSON := zzOutCount("stdout", "json")
-	nText := zzOutCount("stdout", "text")
-	if err != nil {
-		zzReach(name + "-failed")
-		zzAssert(nJSON <= 1, "C16/"+name+": a failing command writes at most one JSON value to stdout")
-		if jsonMode {
-			zzAssert(nText == 0, "C16/"+name+": a failing --json command writes no plain text to stdout")
-		}
-		return
-	}
-	zzReach(name + "-ok")
-	if jsonMode {
-		zzAssert(nJSON == 1, "C16/"+name+": a successful --json command writes exactly one JSON value")
-		zzAssert(nText == 0, "C16/"+name+": a successful --json command writes nothing else to stdout")
-	}
-}
-
-// zzTaskOK: the touched task obeys the six states and the claim rule, epics stay stateless.
-func zzItemOK(t *Task) bool {
-	if t == nil {
-		return true
-	}
-	if t.IsEpic {
-		return t.State == "todo" && t.ClaimedBy == "" && t.EpicID == ""
-	}
-	return zzSixStates(t.State) && zzClaimRule(t.State, t.ClaimedBy)
-}
-
-func zzUnchangedItem(a, b *Task) bool {
-	if a == nil || b == nil {
-		return a == nil && b == nil
-	}
-	return a.State == b.State && a.ClaimedBy == b.ClaimedBy && a.EpicID == b.EpicID && a.Title == b.Title && a.Body == b.Body && a.IsEpic == b.IsEpic
-}
 
 // ---------------------------------------------------------------- set (three input modes)
 func zzCmd_Set_JSON()      { zzCmdSet(0) }
@@ -117,6 +47,30 @@ func zzCmdSet(mode int) {
 		return
 	}
 	zzAssert(pre != nil, "C10/set: only existing ids can be updated")
+	if post != nil {
+		switch mode {
+		case 0:
+			if in.Title != nil {
+				zzAssert(post.Title == strings.TrimSpace(*in.Title), "C17/set[json]: title is the supplied text, trimmed (documented for set)")
+			} else {
+				zzAssert(post.Title == preCopy.Title, "C17/set[json]: title untouched when not supplied")
+			}
+			if in.Body != nil {
+				zzAssert(post.Body == *in.Body, "C17/set[json]: body stored exactly as supplied")
+			} else {
+				zzAssert(post.Body == preCopy.Body, "C17/set[json]: body untouched when not supplied")
+			}
+		case 1:
+			if strings.TrimSpace(opts.TitleFlag) != "" {
+				zzAssert(post.Title == strings.TrimSpace(opts.TitleFlag), "C17/set[flags]: title trimmed (documented)")
+			}
+			if opts.BodyFlag != "" {
+				zzAssert(post.Body == opts.BodyFlag, "C17/set[flags]: body exact")
+			}
+		case 2:
+			zzAssert(post.Body == zzString("stdin.text"), "C17/set[body-stdin]: body is stdin verbatim")
+		}
+	}
 	zzAssert(zzItemOK(post), "C06/set: post-state obeys six states and the claim rule (epics stateless)")
 	if pre != nil && post != nil && !pre.IsEpic {
 		zzAssert(zzDocTransition(preCopy.State, post.State), "C06/set: state change is in the documented table")
@@ -202,6 +156,14 @@ func zzCmdNewTask(mode int) {
 	for k, t := range g2.Tasks {
 		if _, old := g.Tasks[k]; !old {
 			n++
+			switch mode {
+			case 0:
+				zzAssert(t.Title == in.GetTitle() && t.Body == in.GetBody(), "C17/new-task[json]: title and body are stored exactly as supplied")
+			case 1:
+				zzAssert(t.Title == strings.TrimSpace(opts.TitleFlag) && t.Body == opts.BodyFlag, "C17/new-task[flags]: title trimmed (documented), body exact")
+			case 2:
+				zzAssert(t.Title == strings.TrimSpace(opts.TitleFlag) && t.Body == zzString("stdin.text"), "C17/new-task[body-stdin]: title trimmed (documented), body is stdin verbatim")
+			}
 			zzAssert(!t.IsEpic && zzItemOK(t), "C06/new-task: created task obeys six states and the claim rule")
 			zzAssert(t.State == "todo" || zzDocTransition("todo", t.State), "C06/new-task: state given at creation is reachable from todo by the table")
 		}
@@ -245,6 +207,14 @@ func zzCmdNewEpic(mode int) {
 	for k, t := range g2.Tasks {
 		if _, old := g.Tasks[k]; !old {
 			n++
+			switch mode {
+			case 0:
+				zzAssert(t.Title == in.GetTitle() && t.Body == in.GetBody(), "C17/new-epic[json]: title and body are stored exactly as supplied")
+			case 1:
+				zzAssert(t.Title == strings.TrimSpace(opts.TitleFlag) && t.Body == opts.BodyFlag, "C17/new-epic[flags]: title trimmed (documented), body exact")
+			case 2:
+				zzAssert(t.Title == strings.TrimSpace(opts.TitleFlag) && t.Body == zzString("stdin.text"), "C17/new-epic[body-stdin]: title trimmed (documented), body is stdin verbatim")
+			}
 			zzAssert(t.IsEpic && zzItemOK(t), "C06/new-epic: created epic is stateless, unclaimed, top-level")
 		}
 	}
